@@ -16,6 +16,10 @@ Decided:
     paths by the detach for that resource; (c) drop order is C09.R1; the page count derives from the attached length.
  Z5 PCM transfer shape: readable [stream id bytes, chunk] (non-blocking: one buffer), writable [status]; an add only
     when at least 3 descriptors are free; chunks of the configured period size.
+ Z6 EDID decoding tables (VESA E-EDID 3.9 / 3.10.2): the standard-timing parser is folded over every first byte and
+    aspect code: unused iff 0x0101, width = (b0 + 31) * 8, height = width * {10/16, 3/4, 4/5, 9/16}[b1 >> 6] computed
+    multiply-first (exact for widths that are not multiples of 16 / 5); the detailed-timing parser over byte samples:
+    active = low byte | (high nibble << 8) for horizontal (bytes 2, 4) and vertical (bytes 5, 7), None iff either is 0.
 Not decided: exactly-once in-order frame delivery over completion orders; equality of returned values with device data.
 """
 from .common import *
@@ -26,7 +30,7 @@ EXPLANATION = ("Struct layouts/constants from rustc against the specification ta
                "command constant and of the response-check operand/result; command order and backing lifetime are dominance / "
                "must-precede queries on the inlined MIR of the GPU operations with the helpers as events.")
 CONFIGS = ['def', 'alloc', 'def-rel']    # these drivers need the `alloc` feature
-FLOORS = {'gpu_helpers': 9, 'gpu_commands': 13, 'sound_checks': 5}
+FLOORS = {'edid_parsers': 2, 'gpu_helpers': 9, 'gpu_commands': 13, 'sound_checks': 5}
 GPU = 'device::gpu::VirtIOGpu'
 GPU_CMDS = {'GET_DISPLAY_INFO': 0x100, 'RESOURCE_CREATE_2D': 0x101, 'RESOURCE_UNREF': 0x102, 'SET_SCANOUT': 0x103, 'RESOURCE_FLUSH': 0x104,
             'TRANSFER_TO_HOST_2D': 0x105, 'RESOURCE_ATTACH_BACKING': 0x106, 'RESOURCE_DETACH_BACKING': 0x107, 'GET_CAPSET_INFO': 0x108,
@@ -53,6 +57,7 @@ def run(F, R):
     z2_sound(F, R, M, roles)
     z2_misc(F, R, M, roles)
     z5_pcm(F, R, M, roles)
+    z6_edid(F, R)
 
 
 def z1_encodings(F, R):
@@ -448,3 +453,96 @@ def z5_pcm(F, R, M, roles):
                         if 'status' in fmt(d) and derives_from(d, lambda x: x[0] == 'bin' and x[1] in ('Ne', 'Eq')):
                             cm = True
                 R.check(cm, 'Z2', 'sound:pcm_xfer:status-check', fn_site(F, b['id']), 'each transfer status compared with S_OK', 'PCM transfer statuses are not checked')
+
+
+def z6_edid(F, R):
+    parsers = [b for b in F.bodies.values() if F.handwritten(b) and 'gpu::edid' in b['id'] and b['kind'] == 'AssocFn' and 'Option<' in b.get('sig', '')
+               and '[u8;' in b.get('sig', '') and b['arg_count'] == 1]
+    n = 0
+    for b in parsers:
+        sg = supergraph(F, b['id'])
+        where = fn_site(F, b['id'])
+        try:
+            paths = PathEnum(sg).run()
+        except PathLimit as e:
+            R.abstain('Z6', b['id'], str(e), where)
+            continue
+        two = '[u8; 2]' in b['sig']
+        n += 1
+
+        def run(bytes_):
+            def leaf(t):
+                if t[0] in ('load0', 'load'):
+                    if 'promoted' in fmt(t):
+                        return 0x0101
+                    path = t[1][2]
+                    if path and path[-1][0] in ('cidx', 'idx'):
+                        i = path[-1][1] if path[-1][0] == 'cidx' else fold_const(path[-1][1])
+                        if i is None:
+                            raise Unfoldable(fmt(t)[:60])
+                        return bytes_[i]
+                    if not path and two:
+                        return bytes_[0] | (bytes_[1] << 8)
+                raise Unfoldable(fmt(t)[:80])
+            fo = Folder(leaf)
+            hit = [p for p in paths if path_holds(fo, p)]
+            if len(hit) != 1:
+                return ('paths', len(hit))
+            p = hit[0]
+            if p.panicked:
+                return ('panic', p.end)
+            r = p.ret
+            if r[0] == 'agg' and r[1].endswith('::None'):
+                return None
+            st = r[2][0]
+            return tuple(fo.ev(x) for x in st[2])
+        bad = None
+        rows = 0
+        try:
+            if two:
+                RAT = {0: (10, 16), 1: (3, 4), 2: (4, 5), 3: (9, 16)}
+                for b0 in range(256):
+                    for code in range(4):
+                        for low in (0, 1, 0x3f):
+                            b1 = (code << 6) | low
+                            rows += 1
+                            got = run([b0, b1])
+                            if b0 == 1 and b1 == 1:
+                                want = None
+                            else:
+                                h = (b0 + 31) * 8
+                                want = (h, h * RAT[code][0] // RAT[code][1])
+                            if got != want:
+                                bad = 'standard timing bytes %02x %02x: parsed as %s, E-EDID 3.9 gives %s' % (b0, b1, got, want)
+                                break
+                        if bad:
+                            break
+                    if bad:
+                        break
+            else:
+                import random
+                rnd = random.Random(5)
+                samples = [[0] * 18, [0xff] * 18]
+                for _ in range(300):
+                    samples.append([rnd.randrange(256) for _ in range(18)])
+                for i in (2, 4, 5, 7):
+                    for v in (0x01, 0x0f, 0x10, 0xf0, 0x80):
+                        x = [0] * 18
+                        x[2], x[5] = 1, 1
+                        x[i] = v
+                        samples.append(x)
+                for x in samples:
+                    rows += 1
+                    got = run(x)
+                    h = x[2] | ((x[4] & 0xf0) << 4)
+                    v = x[5] | ((x[7] & 0xf0) << 4)
+                    want = None if (h == 0 or v == 0) else (h, v)
+                    if got != want:
+                        bad = 'detailed timing bytes[2,4,5,7]=%02x %02x %02x %02x: parsed as %s, E-EDID 3.10.2 gives %s' % (x[2], x[4], x[5], x[7], got, want)
+                        break
+        except Unfoldable as e:
+            R.abstain('Z6', b['id'], 'cannot fold: %s' % e, where)
+            continue
+        R.tables += rows
+        R.check(bad is None, 'Z6', '%s:decode' % b['id'], where, 'decodes every encoding as the E-EDID standard prescribes (%d rows)' % rows, 'EDID mode decoding: %s' % bad)
+    R.count('edid_parsers', n)
